@@ -22,6 +22,7 @@ import sys
 from vlib import bindlex, core, pygen, pyrun, symref
 
 ID = "C20"
+READY = True
 LEVEL = "exploration"
 RULE = ("modules of pygen projects (<= 140 lines); cursor = every offset inside identifiers + every 3rd other "
         "offset; x {intact, line truncated at cursor} x maxfixes {1,3} x later_locals {T,F}; non-trivial = call "
@@ -225,7 +226,7 @@ def run_case(spec):
                                     if extra[0] in s.bind:
                                         src_kind = s.kind
                                         break
-                                viol(f"assist|unreferable-proposal|from={src_kind}-scope", "a proposal names nothing referable at the cursor",
+                                viol("assist|unreferable-proposal", "a proposal names nothing referable at the cursor", origin=src_kind,
                                      offset=offset, prefix=prefix, extra=extra[:3], line=lines[lineno - 1], scope=scope.kind)
             # ---- go to definition on resolved loads
             by_binding = {}
@@ -256,6 +257,12 @@ def run_case(spec):
                         return "comprehension"
                     child = a
                 return "module-body"
+
+            def def_key(o):
+                ctx = load_context(o)
+                if ctx in ("comprehension", "lambda", "default-argument", "decorator", "class-base", "class-body"):
+                    return f"use-in={ctx}"      # the context is the mechanism
+                return f"use-in={ctx}|bound-by={constructs_of(o)}"
 
             def constructs_of(o):
                 for s_ in model.scopes():
@@ -300,10 +307,10 @@ def run_case(spec):
                     res.outcome("definition-in-other-module")
                     continue
                 if ln is None:
-                    viol(f"definition|none-for-resolved-name|use-in={load_context(o)}|bound-by={constructs_of(o)}",
+                    viol(f"definition|none-for-resolved-name|{def_key(o)}",
                          "no definition line for a statically resolved identifier", offset=off, name=o.name, line=line)
                 elif ln not in var_lines:
-                    viol(f"definition|line-where-binding-is-not-bound|use-in={load_context(o)}|bound-by={constructs_of(o)}",
+                    viol(f"definition|line-where-binding-is-not-bound|{def_key(o)}",
                          "go-to-definition leads to a line where the binding is not bound",
                          offset=off, name=o.name, got=ln, expected=sorted(var_lines)[:8], line=line)
                 else:
